@@ -80,6 +80,12 @@ def chk_slopes(inp):
     back = A.r0_from_slopes(s, wl, ds)
     if rel(back, r0) > 1e-8:
         return bad("r0_from_slopes(slopes of variance slope_variance_from_r0(r0)) != r0", back, r0)
+    # the statement speaks of the slope VARIANCE: a static offset per sub-aperture (reference slopes, a fixed tilt) changes the mean
+    # of the slopes, not their variance, so the estimate must not move
+    off = numpy.sqrt(sv) * rng.uniform(-3, 3, size=(2, 7, 1))
+    back_off = A.r0_from_slopes(s + off, wl, ds)
+    if rel(back_off, r0) > 1e-8:
+        return bad("r0_from_slopes(slopes of variance slope_variance_from_r0(r0) plus a static offset per sub-aperture) != r0", back_off, r0)
     if rel(A.slope_variance_from_r0(r0 * k, wl, ds), sv * k ** (-5. / 3)) > TOL:
         return bad("slope variance does not scale as r0^(-5/3)", A.slope_variance_from_r0(r0 * k, wl, ds), sv * k ** (-5. / 3))
 
